@@ -8,9 +8,10 @@
    (x / 0 = x * inv 0 = 0): what it returns where the denominator vanishes is stated, not hidden. *)
 From Coq Require Import ZArith List Bool Lia.
 From VBase Require Import MachInt FieldOps.
-From VModel Require Import Enforce.
+From VModel Require Import Enforce EnforceLagrange.
 From VGen Require Assertions.
 From VProofs Require Import EnforceSteps EnforceField EnforceDivisor EnforceValue EnforceInst EnforceGen.
+From VProofs Require Import EnforceLagrangeProofs EnforceLagrangeInst.
 Import ListNotations.
 Open Scope Z_scope.
 
@@ -378,3 +379,195 @@ Proof.
 Qed.
 Example C16_exemptions_example : exemptions_ok 16 9 32 [15] = true /\ exemptions_ok 16 10 32 [15] = false /\ exemptions_ok 16 0 32 [15] = false.
 Proof. repeat split. Qed.
+
+(* ================================================================== Lagrange kernel constraints *)
+(* air/src/air/lagrange/{transition,boundary,frame,mod}.rs, model Model/EnforceLagrange.v.  Trace length n = 2^v.
+   An AIR with a Lagrange kernel column draws `lag_num_coefficients n` = trace_len.ilog2() transition coefficients and
+   LagrangeKernelTransitionConstraints::new builds one divisor per coefficient.  Constraint k (numbered from 1, as in
+   evaluate_numerators) has the divisor x^(2^(k-1)) - 1 and the numerator r[v-k]*c[0] - (1 - r[v-k])*c[v-k+1], where the
+   frame entry c[v-k+1] is the column at g^(2^(v-k)) * x.  `lag_rows n k` (the multiples of n / 2^(k-1)) is the intended
+   enforcement domain, `lag_shift n k` = n / 2^k the distance to the second row read, `lag_reads n k i` both rows. *)
+
+Theorem C16_lagrange_number_is_log2 : forall v, 0 <= v -> lag_num_coefficients (2 ^ v) = v.
+Proof. exact lag_num_coefficients_spec. Qed.
+Print Assumptions C16_lagrange_number_is_log2.
+
+(* the intended enforcement domain of constraint k: the 2^(k-1) multiples of 2^(v-k+1) below n *)
+Theorem C16_lagrange_rows_spec : forall v k i, 0 <= v -> 1 <= k <= v ->
+  (In i (lag_rows (2 ^ v) k) <-> 0 <= i < 2 ^ v /\ (2 ^ (v - k + 1) | i)) /\
+  NoDup (lag_rows (2 ^ v) k) /\ Z.of_nat (length (lag_rows (2 ^ v) k)) = 2 ^ (k - 1).
+Proof.
+  intros v k i Hv Hk. split; [apply lag_rows_spec; assumption|].
+  split; [apply lag_rows_NoDup; assumption|apply lag_rows_length; assumption].
+Qed.
+Print Assumptions C16_lagrange_rows_spec.
+
+(* the domains are nested and their union is the last one: the rows of even index.  On a row of odd index no Lagrange
+   transition constraint is enforced (by design: such a row is only ever the SECOND row of a constraint) *)
+Theorem C16_lagrange_union_is_even_rows : forall v i, 1 <= v ->
+  ((exists k, 1 <= k <= v /\ In i (lag_rows (2 ^ v) k)) <-> 0 <= i < 2 ^ v /\ (2 | i)) /\
+  (forall k, 1 <= k < v -> In i (lag_rows (2 ^ v) k) -> In i (lag_rows (2 ^ v) (k + 1))).
+Proof.
+  intros v i Hv. split; [apply lag_rows_union; lia|]. intros k Hk. apply lag_rows_nested; lia.
+Qed.
+Print Assumptions C16_lagrange_union_is_even_rows.
+
+(* coverage: every row except row 0 is the second row of EXACTLY ONE enforced (constraint, row) pair, without
+   wrap-around; row 0 never is (it is pinned by the boundary constraint, whose denominator is x - 1) *)
+Theorem C16_lagrange_every_row_covered_once : forall v j, 0 <= v -> 0 < j < 2 ^ v ->
+  exists k i, (1 <= k <= v /\ In i (lag_rows (2 ^ v) k) /\ j = i + lag_shift (2 ^ v) k) /\
+    forall k' i', 1 <= k' <= v -> In i' (lag_rows (2 ^ v) k') -> j = i' + lag_shift (2 ^ v) k' -> k' = k /\ i' = i.
+Proof.
+  intros v j Hv Hj. destruct (lag_target_exists v Hv j Hj) as (k & i & Hk & Hi & E).
+  exists k, i. split; [auto|]. intros k' i' Hk' Hi' E'.
+  exact (lag_target_unique v Hv j k' i' k i Hk' Hk Hi' Hi E' E).
+Qed.
+Print Assumptions C16_lagrange_every_row_covered_once.
+
+Theorem C16_lagrange_row0_exempt : forall v k i, 0 <= v -> 1 <= k <= v -> In i (lag_rows (2 ^ v) k) ->
+  0 < i + lag_shift (2 ^ v) k < 2 ^ v /\ (i + lag_shift (2 ^ v) k) mod 2 ^ v = i + lag_shift (2 ^ v) k.
+Proof. intros v k i Hv. apply lag_target_in_range. exact Hv. Qed.
+Print Assumptions C16_lagrange_row0_exempt.
+
+(* a row of odd index is read by the LAST constraint only (k = v = log2 n, as the successor of an even row) *)
+Theorem C16_lagrange_odd_rows_last_only : forall v j k i, 0 <= v -> 1 <= k <= v ->
+  In i (lag_rows (2 ^ v) k) -> In j (lag_reads (2 ^ v) k i) -> ~ (2 | j) -> k = v /\ j = i + 1.
+Proof. intros v j k i Hv. apply lag_odd_row_last_only. exact Hv. Qed.
+Print Assumptions C16_lagrange_odd_rows_last_only.
+
+(* REFUTED: "the first log2(n) - 1 constraints cover every row".  Witness n = 8: the rows 1, 3, 5, 7 are read by no
+   enforced instance of constraints 1 and 2; constraint 3 reads each of them exactly once *)
+Theorem C16_lagrange_cover_without_last_refuted :
+  exists n j, n = 8 /\ 0 < j < n /\
+    ~ (exists k i, 1 <= k <= lag_num_coefficients n - 1 /\ In i (lag_rows n k) /\ In j (lag_reads n k i)).
+Proof. exact lag_cover_without_last_refuted. Qed.
+Print Assumptions C16_lagrange_cover_without_last_refuted.
+
+Theorem C16_lagrange_cover_without_last_refuted_rows : forall j, In j [1; 3; 5; 7] ->
+  lag_readers 8 (lag_num_coefficients 8 - 1) j = [] /\ lag_readers 8 (lag_num_coefficients 8) j = [(3, j - 1)].
+Proof. exact lag_cover_without_last_refuted_all. Qed.
+Print Assumptions C16_lagrange_cover_without_last_refuted_rows.
+
+Section LagrangeField.
+  Context {F : Type} (Fo : FOps F) (L : FLaws Fo).
+  Variables (g : F) (v : Z).
+  Hypothesis Hv : 0 <= v.
+  Hypothesis Hv64 : v < 64.
+  Hypothesis Hgn : fpow Fo g (2 ^ v) = fone Fo.
+  Hypothesis Hord : forall i, 0 < i < 2 ^ v -> fpow Fo g i <> fone Fo.
+
+  (* the number of constraints is log2 n, there are as many divisors as coefficients (the zip of evaluate_and_combine
+     drops nothing), and the divisor of constraint k is x^(2^(k-1)) - 1 with no exemption point *)
+  Theorem C16_lagrange_count : forall coefs, Z.of_nat (length coefs) = lag_num_coefficients (2 ^ v) ->
+    exists t, lag_new Fo coefs = Some t /\ l_coef t = coefs /\
+      lag_num_constraints t = v /\ Z.of_nat (length (l_div t)) = v /\
+      forall k, 1 <= k <= v -> zidx (l_div t) (k - 1) = Some (mkD [(2 ^ (k - 1), fone Fo)] []).
+  Proof. exact (lag_count Fo v Hv Hv64). Qed.
+
+  (* new() panics (debug build: overflow of 2_usize.pow) on more than 64 coefficients, and on no other input *)
+  Theorem C16_lagrange_new_defined : forall coefs,
+    (Z.of_nat (length coefs) <= 64 -> exists t, lag_new Fo coefs = Some t) /\
+    (64 < Z.of_nat (length coefs) -> lag_new Fo coefs = None).
+  Proof.
+    intros coefs. split; [intros H; eexists; apply (lag_new_spec Fo 0); exact H|apply (lag_new_refuses Fo 0)].
+  Qed.
+
+  (* enforcement_exact: constraint k is enforced on EXACTLY the rows of its subgroup -- on the trace domain, and the
+     divisor has no other zero in the whole field; its denominator is the constant 1 (no 0/0 totalisation) *)
+  Theorem C16_lagrange_enforcement_exact : forall k i, 1 <= k <= v -> 0 <= i < 2 ^ v ->
+    (evaluate_at Fo (mkD [(2 ^ (k - 1), fone Fo)] []) (fpow Fo g i) = fzero Fo <-> In i (lag_rows (2 ^ v) k)).
+  Proof. exact (lag_enforcement_exact Fo L g v Hv Hv64 Hgn Hord). Qed.
+
+  Theorem C16_lagrange_enforcement_exact_all : forall k x, 1 <= k <= v ->
+    (evaluate_at Fo (mkD [(2 ^ (k - 1), fone Fo)] []) x = fzero Fo <->
+     exists i, In i (lag_rows (2 ^ v) k) /\ x = fpow Fo g i) /\
+    eval_exemptions Fo (mkD [(2 ^ (k - 1), fone Fo)] []) x = fone Fo.
+  Proof.
+    intros k x Hk. split; [exact (lag_enforcement_exact_all Fo L g v Hv Hv64 Hgn Hord k x Hk)|reflexivity].
+  Qed.
+
+  (* the boundary constraint (denominator x - 1) is enforced on row 0 only *)
+  Theorem C16_lagrange_boundary_row : forall i, 0 <= i < 2 ^ v ->
+    (lag_boundary_denominator Fo (fpow Fo g i) = fzero Fo <-> i = 0).
+  Proof. exact (lag_boundary_row Fo L g v Hv Hv64 Hgn Hord). Qed.
+
+  (* which cells a numerator relates: on the frame of row i, numerator k is r[v-k]*col[i] - (1 - r[v-k])*col[i + 2^(v-k)] *)
+  Theorem C16_lagrange_numerator_reads : forall col r k i rk, 1 <= k <= v -> zidx r (v - k) = Some rk ->
+    lag_raw Fo (lag_frame_at_row Fo col (2 ^ v) v i) r k =
+    Some (fsub Fo (fmul Fo rk (nth (Z.to_nat i) col (fzero Fo)))
+                  (fmul Fo (fsub Fo (fone Fo) rk) (nth (Z.to_nat ((i + 2 ^ (v - k)) mod 2 ^ v)) col (fzero Fo)))).
+  Proof. exact (lag_raw_at_row Fo v Hv). Qed.
+
+  (* the frame from_lagrange_kernel_column_poly builds at a trace-domain point is the frame of that row *)
+  Theorem C16_lagrange_frame_from_poly : forall poly col i,
+    (forall j, 0 <= j < 2 ^ v -> poly_eval Fo poly (fpow Fo g j) = nth (Z.to_nat j) col (fzero Fo)) -> 0 <= i < 2 ^ v ->
+    lag_frame_from_poly Fo g v poly (fpow Fo g i) = lag_frame_at_row Fo col (2 ^ v) v i.
+  Proof. exact (lag_frame_from_poly_on_domain Fo L g v Hv Hv64 Hgn Hord). Qed.
+
+  (* completeness: on the Lagrange kernel column every numerator vanishes on every row of its enforcement domain *)
+  Theorem C16_lagrange_honest_numerators_vanish : forall r k i, Z.of_nat (length r) = v -> 1 <= k <= v ->
+    In i (lag_rows (2 ^ v) k) ->
+    lag_raw Fo (lag_frame_at_row Fo (lag_kernel_col Fo r (2 ^ v)) (2 ^ v) v i) r k = Some (fzero Fo).
+  Proof. exact (lag_honest_numerator_zero Fo L v Hv). Qed.
+
+  (* soundness of the enforcement domains: ALL v constraints on their domains plus the boundary cell determine the
+     column -- every row is constrained *)
+  Theorem C16_lagrange_constraints_determine_column : forall col r, Z.of_nat (length r) = v ->
+    (forall rb, In rb r -> fsub Fo (fone Fo) rb <> fzero Fo) ->
+    nth 0 col (fzero Fo) = lag_assertion_value Fo r ->
+    (forall k i, 1 <= k <= v -> In i (lag_rows (2 ^ v) k) ->
+       lag_raw Fo (lag_frame_at_row Fo col (2 ^ v) v i) r k = Some (fzero Fo)) ->
+    forall j, 0 <= j < 2 ^ v -> nth (Z.to_nat j) col (fzero Fo) = lag_kernel_cell Fo r j.
+  Proof. exact (lag_constraints_determine Fo L v Hv). Qed.
+End LagrangeField.
+
+Print Assumptions C16_lagrange_count.
+Print Assumptions C16_lagrange_new_defined.
+Print Assumptions C16_lagrange_enforcement_exact.
+Print Assumptions C16_lagrange_enforcement_exact_all.
+Print Assumptions C16_lagrange_boundary_row.
+Print Assumptions C16_lagrange_numerator_reads.
+Print Assumptions C16_lagrange_frame_from_poly.
+Print Assumptions C16_lagrange_honest_numerators_vanish.
+Print Assumptions C16_lagrange_constraints_determine_column.
+
+(* REFUTED: "the first log2(n) - 1 constraints and the boundary cell determine the column".  Witness over Z/97, n = 8,
+   r = (2, 3, 5): the Lagrange kernel column with the cell of row 5 replaced passes constraints 1 and 2 on their whole
+   domains and has the asserted cell in row 0 *)
+Theorem C16_lagrange_determine_without_last_refuted :
+  exists (col r : list F97), Z.of_nat (length r) = 3 /\
+    (forall rb, In rb r -> fsub f97_ops (fone f97_ops) rb <> fzero f97_ops) /\
+    nth 0 col (fzero f97_ops) = lag_assertion_value f97_ops r /\
+    (forall k i, 1 <= k <= 3 - 1 -> In i (lag_rows (2 ^ 3) k) ->
+       lag_raw f97_ops (lag_frame_at_row f97_ops col (2 ^ 3) 3 i) r k = Some (fzero f97_ops)) /\
+    ~ (forall j, 0 <= j < 2 ^ 3 -> nth (Z.to_nat j) col (fzero f97_ops) = lag_kernel_cell f97_ops r j).
+Proof. exact lag_determine_without_last_refuted. Qed.
+Print Assumptions C16_lagrange_determine_without_last_refuted.
+
+(* non-vacuity: the hypotheses of the section hold for n = 8 over Z/97 (g = 64 of exact order 8); the model run inside
+   Coq: 3 constraints, zero patterns of the three divisors over the trace domain, numerators of the honest and of the
+   corrupted column *)
+Example C16_lagrange_hypotheses_satisfiable : 0 <= 3 /\ 3 < 64 /\ fpow f97_ops g8 (2 ^ 3) = fone f97_ops /\
+  (forall i, 0 < i < 2 ^ 3 -> fpow f97_ops g8 i <> fone f97_ops).
+Proof. exact lag_instance_hyps. Qed.
+Example C16_lagrange_run :
+  option_map (fun t => (lag_num_constraints t, Z.of_nat (length (l_div t)))) (lag_new f97_ops co3) = Some (3, 3) /\
+  (forall t, lag_new f97_ops co3 = Some t ->
+     lag_zero_pattern8 t 1 = Some [true; false; false; false; false; false; false; false] /\
+     lag_zero_pattern8 t 2 = Some [true; false; false; false; true; false; false; false] /\
+     lag_zero_pattern8 t 3 = Some [true; false; true; false; true; false; true; false] /\
+     lag_zero_pattern8 t 4 = None) /\
+  lag_rows 8 1 = [0] /\ lag_rows 8 2 = [0; 4] /\ lag_rows 8 3 = [0; 2; 4; 6] /\
+  lag_shift 8 1 = 4 /\ lag_shift 8 2 = 2 /\ lag_shift 8 3 = 1.
+Proof. exact lag_run_new. Qed.
+Example C16_lagrange_run_numerators :
+  raws8 honest8 1 = [Some 0] /\ raws8 honest8 2 = [Some 0; Some 0] /\ raws8 honest8 3 = [Some 0; Some 0; Some 0; Some 0] /\
+  raws8 corrupt8 1 = [Some 0] /\ raws8 corrupt8 2 = [Some 0; Some 0] /\
+  (exists x, x <> 0 /\ raws8 corrupt8 3 = [Some 0; Some 0; Some x; Some 0]).
+Proof. exact lag_run_numerators. Qed.
+Example C16_lagrange_determine_instance : forall col,
+  nth 0 col (fzero f97_ops) = lag_assertion_value f97_ops r3 ->
+  (forall k i, 1 <= k <= 3 -> In i (lag_rows (2 ^ 3) k) ->
+     lag_raw f97_ops (lag_frame_at_row f97_ops col (2 ^ 3) 3 i) r3 k = Some (fzero f97_ops)) ->
+  forall j, 0 <= j < 2 ^ 3 -> nth (Z.to_nat j) col (fzero f97_ops) = lag_kernel_cell f97_ops r3 j.
+Proof. exact lag_determine_instance. Qed.
